@@ -32,6 +32,55 @@ def whole(desc, owner):
     return ("nodes: [0]" in desc) and (("&*%s.table" % owner) in desc or ("&*%s.0.table" % owner) in desc)
 
 
+def check_clone(ctx, rep, cfg, F, rule="R19.2"):
+    """Clone of the collections copies every field (derived), or a hand-written clone / clone_from takes table, free list and
+    counter from the source; Table::clone copies the node vector (shared with C04 / C16)."""
+    for adt in ("prefix_trie::map::PrefixMap", "prefix_trie::set::PrefixSet"):
+        imps = [i for i in F.impls if i.get("trait") == "std::clone::Clone" and F.adt_of(i["self_ty"]) == adt]
+        name = adt.split("::")[-1]
+        if not imps:
+            rep.bad(rule, name, "no-clone", "%s has no Clone impl" % name, kind="unrecognised", config=cfg)
+            continue
+        imp = imps[0]
+        if imp.get("auto_derived"):
+            rep.ok(rule, name, "Clone derived")
+            continue
+        # hand-written: every method must take table, free and count from the source
+        for it_ in imp["items"]:
+            if it_["kind"] != "AssocFn":
+                continue
+            short = F.short_of.get(it_["path"], it_["path"])
+            paths = ctx.paths(F, short, OPTS)
+            unrec = [p for p in paths if p.result[0] == "unrecognised"]
+            if unrec:
+                rep.bad(rule, short, "hand-written-clone", "%s is a hand-written %s and cannot be followed (%s): it must copy table, free list and "
+                        "counter from the source — review needed" % (short, it_["name"], unrec[0].result[1][:100]), kind="unrecognised", config=cfg)
+                continue
+            for p in C.complete(paths):
+                r = repr(p.result[1])
+                wrote = {e["field"] for e in p.ev("field_write")} | {"table" for e in p.ev("vec_clone") if e["what"] == "nodes"} | \
+                    {"free" for e in p.ev("vec_clone") if e["src"].endswith(".free") and e["dst"].endswith(".free")}
+                if it_["name"] == "clone_from":
+                    missing = {"table", "free", "count"} - wrote
+                    if missing:
+                        rep.bad(rule, short, "clone_from-skips-" + ",".join(sorted(missing)), "%s does not take %s from the source: the target keeps "
+                                "stale state of its own history" % (short, sorted(missing)), config=cfg)
+                    else:
+                        rep.ok(rule, short, "clone_from copies all fields")
+    short = "<Table as Clone>::clone"
+    if short in F.short:
+        for p in ctx.paths(F, short, OPTS):
+            vc = [e for e in p.ev("vec_clone") if e["what"] == "nodes"]
+            r = repr(p.result[1]) if p.result[0] == "ret" else C.result_str(p)
+            if p.result[0] != "ret" or not vc or vc[-1]["src"] != "self.0" and "self" not in vc[-1]["src"] or ("clone(" not in r):
+                rep.bad(rule, short, "shares-or-unknown", "Table::clone must build a new arena from Vec::clone of its own node vector; it returns %s (%s)"
+                        % (r, [repr(e) for e in vc]), config=cfg)
+            else:
+                rep.ok(rule, short, "new arena from Vec::clone", sample={"result": r})
+    else:
+        rep.bad(rule, short, "missing", "%s not found" % short, kind="unrecognised", config=cfg)
+
+
 def run_config(ctx, rep, cfg, F):
     # ---- R19.1
     for short in ("<PrefixMap as PartialEq>::eq", "<PrefixSet as PartialEq>::eq"):
@@ -79,51 +128,7 @@ def run_config(ctx, rep, cfg, F):
                 rep.bad("R19.1", short, "unrecognised-form", "%s can answer `true` without comparing both entry sequences as a whole (events: %s); "
                         "accepted forms: Iterator::eq / eq_by on both whole walkers, or entry counts equal ∧ zipped walkers element-wise equal"
                         % (short, C.events_str(p, ("seq_all", "call"), 6)), config=cfg)
-    # ---- R19.2
-    for adt in ("prefix_trie::map::PrefixMap", "prefix_trie::set::PrefixSet"):
-        imps = [i for i in F.impls if i.get("trait") == "std::clone::Clone" and F.adt_of(i["self_ty"]) == adt]
-        name = adt.split("::")[-1]
-        if not imps:
-            rep.bad("R19.2", name, "no-clone", "%s has no Clone impl" % name, kind="unrecognised", config=cfg)
-            continue
-        imp = imps[0]
-        if imp.get("auto_derived"):
-            rep.ok("R19.2", name, "Clone derived")
-            continue
-        # hand-written: every method must take table, free and count from the source
-        for it_ in imp["items"]:
-            if it_["kind"] != "AssocFn":
-                continue
-            short = F.short_of.get(it_["path"], it_["path"])
-            paths = ctx.paths(F, short, OPTS)
-            unrec = [p for p in paths if p.result[0] == "unrecognised"]
-            if unrec:
-                rep.bad("R19.2", short, "hand-written-clone", "%s is a hand-written %s and cannot be followed (%s): it must copy table, free list and "
-                        "counter from the source — review needed" % (short, it_["name"], unrec[0].result[1][:100]), kind="unrecognised", config=cfg)
-                continue
-            for p in C.complete(paths):
-                r = repr(p.result[1])
-                wrote = {e["field"] for e in p.ev("field_write")} | {"table" for e in p.ev("vec_clone") if e["what"] == "nodes"} | \
-                    {"free" for e in p.ev("vec_clone") if e["src"].endswith(".free") and e["dst"].endswith(".free")}
-                if it_["name"] == "clone_from":
-                    missing = {"table", "free", "count"} - wrote
-                    if missing:
-                        rep.bad("R19.2", short, "clone_from-skips-" + ",".join(sorted(missing)), "%s does not take %s from the source: the target keeps "
-                                "stale state of its own history" % (short, sorted(missing)), config=cfg)
-                    else:
-                        rep.ok("R19.2", short, "clone_from copies all fields")
-    short = "<Table as Clone>::clone"
-    if short in F.short:
-        for p in ctx.paths(F, short, OPTS):
-            vc = [e for e in p.ev("vec_clone") if e["what"] == "nodes"]
-            r = repr(p.result[1]) if p.result[0] == "ret" else C.result_str(p)
-            if p.result[0] != "ret" or not vc or vc[-1]["src"] != "self.0" and "self" not in vc[-1]["src"] or ("clone(" not in r):
-                rep.bad("R19.2", short, "shares-or-unknown", "Table::clone must build a new arena from Vec::clone of its own node vector; it returns %s (%s)"
-                        % (r, [repr(e) for e in vc]), config=cfg)
-            else:
-                rep.ok("R19.2", short, "new arena from Vec::clone", sample={"result": r})
-    else:
-        rep.bad("R19.2", short, "missing", "%s not found" % short, kind="unrecognised", config=cfg)
+    check_clone(ctx, rep, cfg, F)
     # ---- R19.3
     for short, ins in (("<PrefixMap as FromIterator>::from_iter", "PrefixMap::insert"), ("<PrefixSet as FromIterator>::from_iter", "PrefixSet::insert")):
         if short not in F.short:
